@@ -273,6 +273,19 @@ def _sf_define_run(eng, args, kw, st, fr, k, node):
     return k(PNONE, St(st.env, st.heap, st.pc, g))
 
 
+def _run_md_store(eng, st, key, value, node):
+    """run_md[key] = value inside define_run: the running start / end of the superrun"""
+    from pyvc.engine import strv
+    gi = z3.Function("getitem", V, V, V)
+    if isinstance(key, str) and key in ("start", "end") and "run_doc_" + key in st.env:
+        f = z3.Function("fn:min" if key == "start" else "fn:max", V, V, V)
+        want = f(gi(eng.to_v(st.env["run_md"]), strv(key)), eng.to_v(st.env["run_doc_" + key]))
+        eng.oblige("span", "the superrun starts at the earliest start and ends at the latest end of its subruns (running "
+                           f"{'minimum' if key == 'start' else 'maximum'} of the {key} so far and this subrun's {key})", st,
+                   eng.to_v(value) == want, node)
+    return st
+
+
 define_run = REG.add(Contract(
     "strax/run_selection.py", "define_run",
     params=dict(self="V", name="V", data="V", from_run="V"),
@@ -287,7 +300,7 @@ define_run = REG.add(Contract(
            "datetime.datetime.max.replace": Abstract(), "datetime.datetime.min.replace": Abstract(),
            ".setdefault": Abstract(sort=None), ".replace": Abstract(), ".total_seconds": Abstract(sort="int"),
            "min": Abstract(pure=True), "max": Abstract(pure=True)},
-    store_hooks={"run_md": lambda eng, st, key, value, node: st},
+    store_hooks={"run_md": _run_md_store},
     expected_dead=[("return", 'return self.define_run(name, {run_id: "all" for run_id in data})')],
     loops={1: Loop(lambda S, a: []), 2: Loop(lambda S, a: [])},
     loop_ghost={1: [], 2: ["defined"]},
